@@ -47,6 +47,20 @@ Reading.
 * scores are also built with `gen_score.build_part`'s `warm` bit mask (read-only views interleaved with the
   construction, notes re-added after a wrong first placement): the finished part is the same part, so every clause
   applies unchanged; a memo left behind by an early view and not invalidated shows as a wrong export.
+* "all scores": the score is the OBJECT as it is when `save_score_midi` is called, whatever was done with it before.
+  The `edit` cases read one score object (an export in some configuration, the time maps, note arrays, every view),
+  then edit it - `Part.set_quarter_duration`, `Part.add` / `Part.remove` of a note, a time signature replaced - and
+  export it again: the second file must be the export of the score as it is THEN (full oracle on the edited
+  description, by the documented meaning of each call) and equal, event for event, the export of a twin built from
+  scratch with the same content (theorems edit_history_export, edited_export_exact, edited_note_ticks).
+* the zero-length dispatch of the exporter follows the TICKS, not the class of the note: a grace note with an extent
+  (added with an end after its start, or given the length of its notated value by the public
+  `partitura.score.expand_grace_notes`) sounds for that extent, an ordinary note of zero duration is a sounding note
+  of zero duration (theorem zero_length_iff_no_duration).  For `expand_grace` scores the lengths are read back from
+  the note objects after the call; a score in which an expanded grace note overlaps a note of its pitch is outside
+  the domain (not judged).
+* a call with the optional arguments omitted is the documented default call (mode 0, velocity 64, "shift", no minimum
+  ppq; import mode 0): theorem default_call over the defaults regenerated from the live signatures.
 * a `pad_bar` origin that is not a multiple of a tick (bar length of the first signature not representable in
   any division of the score, e.g. 3/8 with one division per quarter) is outside the generated domain
   (`ticks_integral_pad_partial` states the hypothesis; counter-example in Props/C04.lean).
@@ -60,11 +74,14 @@ from fractions import Fraction
 import wire as W
 from core import Eval
 import gen_score as G
+from cpulimit import run_limited, CpuTimeout
 
 PROPERTY = "C04"
 DRIVER = "drv_c04"
 PROPS = ["PartituraModel.Props.C04", "PartituraModel.Props.C04Export", "PartituraModel.Props.C04Sigs",
-         "PartituraModel.Props.C04Cells", "PartituraModel.Props.C04History"]
+         "PartituraModel.Props.C04Cells", "PartituraModel.Props.C04History", "PartituraModel.Props.C04Edit",
+         "PartituraModel.Props.C04Total", "PartituraModel.Props.C04ImportSigs",
+         "PartituraModel.Props.C04Domain"]
 TRUSTED = [
     "mido: message (de)serialisation, variable-length delta times, end_of_track appended on save; the file is "
     "written to a buffer and read back with mido.MidiFile before anything is compared",
@@ -77,33 +94,41 @@ TRUSTED = [
     "binary64 quarter_map values of the score are snapped to the rational they stand for (denominator <= 10^6) before "
     "they are compared with the model's exact scoreRows",
     "Python dict insertion order; np.lcm.reduce on int64 (no overflow for the generated divisions)",
+    "Part.add / Part.remove / set_quarter_duration as seen by the exporter are modelled on the tables it reads "
+    "(Model/ScoreEdit.lean: quarter-duration table walk, row inserted after the rows that start at or before it, row "
+    "erased, time signature replaced); the timeline mechanics behind them are C01's subject; notes are added only at "
+    "time points without a grace note (whose class is iterated after the plain notes of the point)",
+    "mido refuses a time signature numerator above 255: scores with such a measure are not generated",
     "a mido.MidiFile object is modelled by its ticks per quarter and the (delta time, message) lists of its tracks "
     "(Model/MidiObject.lean); that the readers do not write to it is the modelled behaviour (readOp), checked on the "
     "real object by value after every use; mf.save / mido.MidiFile(file) are the identity on that content",
 ]
 PARTIAL = [
-    "ticks_integral_pad_partial / export_ticks_exact_pad_partial / score_roundtrip_pad_partial: pad_bar needs "
-    "beat_type | 4*beats*ppq (bar of the first signature on the tick grid); roundtrip_ticks (written integer ticks) "
-    "holds for pad_bar without it",
+    "ticks_integral_pad_partial / export_ticks_exact_pad_partial / score_roundtrip_pad_partial / "
+    "zero_length_iff_no_duration_pad_partial / history_roundtrip_pad_partial / score_roundtrip_any_import_mode_pad_partial: "
+    "pad_bar needs beat_type | 4*beats*ppq (bar of the first signature on the tick grid) - pad_bar_integral_iff proves "
+    "that this is exactly the condition (necessary and sufficient), so these cannot be strengthened; roundtrip_ticks "
+    "(written integer ticks) and export_returns hold for pad_bar without it; property_C04 / property_end_to_end are "
+    "stated for shift and time_sig_change",
     "time_sig_change_positions: which signatures are kept and where events may stand is proved; the numerator written "
     "for an irregular measure (whole beats, or halved beats up to /128 after fix C04-9, truncated when not dyadic) and "
     "the dropping of the first of two signatures at one tick are modelled and compared; the oracle demands the "
     "signature in force at every measure start (a non-zero numerator where the length is not a whole number of beats)",
     "parts with different metres merged into one track (modes 1, 2, 4) give a track with two signatures at one tick; "
     "when the importer's part construction rejects such a file the import is neither compared nor judged",
-    "the theorems are about the models (saveScoreMidi / loadScoreMidi and their named pieces); that save_score_midi / "
-    "load_score_midi compute the modelled functions, and that the theorems' vocabulary (routedTo, trackKS, trackTS, "
-    "trackTempo, scoreRows, importedRows, writtenCells of Model/ScoreMidiSpec.lean) means what the real file holds, is established "
-    "by the differential run only",
-    "saveScoreMidi returning (`h` of the export theorems: origin defined, no NaN signature, no negative first tick) is a "
-    "hypothesis; that the import of an export returns is proved (roundtrip_total)",
+    "the theorems are about the models (saveScoreMidi / loadScoreMidi / setQuarterDuration and their named pieces); that "
+    "save_score_midi / load_score_midi / Part.set_quarter_duration compute the modelled functions, and that the theorems' "
+    "vocabulary (routedTo, trackKS, trackTS, trackTempo, scoreRows, importedRows, writtenCells, ScoreNoOverlap of "
+    "Model/ScoreMidiSpec.lean) means what the real file holds, is established by the differential run only",
     "create_part: only the quarter duration it sets and the placement of the notes in divisions (create_part_placement); "
     "measures, ties, tuplets, symbolic durations of the created part are C11's subject",
-    "the imported signature / tempo positions (sanitize step, global tracks) are modelled and compared, not proved",
+    "the imported KEY and TIME signature positions (sanitize step, global tracks, union over the tracks of a part) are "
+    "modelled and compared, not proved; the imported tempo positions are proved (import_tempo_positions)",
     "Tempo values (bpm -> microseconds per quarter) are C12's conversion; here positions and the written integer",
-    "history_roundtrip_pad_partial / score_roundtrip_any_import_mode_pad_partial: pad_bar under the hypothesis of "
-    "score_roundtrip_pad_partial; for an import mode other than the export's only the notes (and that the import "
-    "returns) are proved, the (part, voice) cells are compared with the model",
+    "an `anacrusis_behavior` string other than the three documented ones (accepted silently by the code when the score "
+    "has no pickup) is outside the model",
+    "export_returns for pad_bar assumes of the input that every part has a time signature with a non-zero beat type in "
+    "force at 0 and a pickup no longer than one bar of it (SigOk); for shift / time_sig_change export_returns_iff is exact",
 ]
 RULE = ("seeded musical scores: 1-3 parts (optionally in part groups, also nested two and three levels deep, optionally "
         "one without notes), divisions drawn mostly from {3,5,6,7,9,12,24} and changing inside a part at barlines, 1-4 "
@@ -122,6 +147,19 @@ RULE = ("seeded musical scores: 1-3 parts (optionally in part groups, also neste
         "in any of the six modes (not only the export's), load_performance_midi, mf.save + parse, direct iteration - "
         "each compared with the path-based call (path as str or pathlib.Path) and the object compared by value with "
         "the written file after every use. "
+        "A tenth of the scores each have grace notes that LAST (added with an extent), grace notes with a notated value "
+        "expanded by partitura.score.expand_grace_notes after the build, or ordinary notes of zero duration. "
+        "`edit` cases: one score object is read (an export in a random configuration, the time maps, note arrays, all "
+        "views), then edited 1-3 times - set_quarter_duration at a barline / at 0 / at a stored change / anywhere with "
+        "a multiple, a divisor or another value (redundant calls included), a note added, a note removed, a time "
+        "signature replaced or added at a barline - each edit optionally followed by another read, every edit keeping "
+        "the score in the domain (no equal-pitch overlap in musical time, bar of the first signature on the tick grid, "
+        "numerators <= 255); the final export (random configuration) is judged by the full oracle on the edited "
+        "description, compared event for event with the export of a twin built from scratch, and compared with the model "
+        "that applies the edits to the ORIGINAL tables. `reject` cases: unsupported modes, scores without any sounding "
+        "note and their accepted neighbours (model and code compared). Per score one call with every optional argument "
+        "omitted (defaults regenerated from the signatures) and, per mode, the model's decision that the score is in the "
+        "theorems' domain (ScoreNoOverlap). "
         "distinct = distinct case description; non-trivial = at least one sounding note written")
 LEVEL_TEXT = ("Lean 4 theorems over all scores: for every list of parts, mode, anacrusis policy, minimum ppq and velocity "
               "for which the model of save_score_midi returns a file, pairing each written track returns exactly the "
@@ -136,7 +174,17 @@ LEVEL_TEXT = ("Lean 4 theorems over all scores: for every list of parts, mode, a
               "(roundtrip_total), in every import mode (score_roundtrip_any_import_mode, import_total_any_mode), and every "
               "read in every history of uses of one exported MidiFile object returns what the first read returns and "
               "leaves the object unchanged (history_roundtrip, history_perf, history_messages, history_saved, "
-              "history_reads_independent, history_object_unchanged); on top of the "
+              "history_reads_independent, history_object_unchanged); the hypothesis that the exporter returns is "
+              "discharged (export_returns, export_returns_iff: exactly when the mode is 0..5, a note sounds and the "
+              "signatures the policy reads exist) and the domain is stated on the score in musical time "
+              "(ScoreNoOverlap, score_domain_gives_tick_domain), so that property_C04 states the whole round trip - both "
+              "stages return, ppq rule, notes in quarters, (part, voice) cells for ANY import mode "
+              "(roundtrip_cells_any_import_mode, grouping_recovered_any_import_mode), tempo events "
+              "(import_tempo_positions) - from hypotheses about the user's input only; pad_bar_integral_iff shows the "
+              "pad_bar side condition is exact; a score object that was read and then edited is exported as it is then "
+              "(edit_history_export, edited_export_exact, edited_note_ticks, set_quarter_duration_takes_effect / _rate), "
+              "the zero-length dispatch follows the duration and not the class (zero_length_iff_no_duration), the defaults "
+              "and literals of the live source are the model's (source_constants, default_call); on top of the "
               "per-track theorems (integer ticks, ppq = lcm * 2^k minimal, delta round trip, stable event order, pairing "
               "automaton, six modes). Tied to the code by a differential run of the real save_score_midi / "
               "load_score_midi / load_performance_midi against the executable models AND against the theorems' "
@@ -321,7 +369,15 @@ def spell(rng, midi):
     return st, al, octv
 
 
-def gen_part(rng, pid, skeleton, occ, empty=False):
+GRACE_TYPES = {"quarter": Fraction(1), "eighth": Fraction(1, 2), "16th": Fraction(1, 4), "32nd": Fraction(1, 8)}
+
+
+def gen_part(rng, pid, skeleton, occ, empty=False, style=None):
+    """`style`: None - grace notes take no time and every other note has a positive duration (what every importer
+    produces); "extent" - grace notes that last (a GraceNote added with an end after its start); "expand" - grace notes
+    with a notated value, given that length by `partitura.score.expand_grace_notes` after the part is built ("xdur":
+    the length the description expects); "zero" - ordinary notes of zero duration.  The exporter's zero-length
+    dispatch follows the ticks, not the class of the note."""
     bars, pickup = skeleton
     d = rng.choice(DIVS_ODD) if rng.random() < 0.7 else rng.choice(DIVS_ANY)
     if pickup is not None:
@@ -447,20 +503,43 @@ def gen_part(rng, pid, skeleton, occ, empty=False):
                 occ.add(p, q0, q1)
                 chosen.append(p)
             # grace note before the main notes, sometimes with the pitch of a note starting or ending here
-            for _g in range(rng.choice([1, 1, 1, 2]) if rng.random() < 0.16 else 0):
+            for _g in range(rng.choice([1, 1, 1, 2]) if rng.random() < (0.16 if style is None else 0.4) else 0):
                 r = rng.random()
-                if r < 0.35 and chosen:
+                # the length of the grace note in divisions (0: takes no time) and, for "expand", its notated value
+                gd, gsym = 0, None
+                if style == "extent" and rng.random() < 0.8:
+                    gcand = [x for x in (1, dd // 2, dd // 4, pieces[0][1], dd) if 0 < x and pos + x <= b]
+                    gd = rng.choice(gcand) if gcand else 0
+                elif style == "expand":
+                    gcand = [(ty, int(fr * dd)) for ty, fr in GRACE_TYPES.items() if (fr * dd).denominator == 1 and pos + int(fr * dd) <= b]
+                    gsym, gd = rng.choice(gcand) if gcand else (None, 0)
+                    if gsym is None:
+                        continue  # no notated value has a whole length here: no grace note
+                qg = qpos(pos + gd)
+                if gd == 0 and style == "zero" and rng.random() < 0.3:
+                    pool = []
+                elif gd == 0 and r < 0.35 and chosen:
                     pool = [p for p in chosen if occ.free(p, q0, q0)]      # the pitch of its own main note
                 elif r < 0.7:
-                    pool = [p for p in (occ.starting(q0) + occ.touching(q0)) if occ.free(p, q0, q0)]
+                    # a pitch that starts or ends here (one that starts here is taken only by a grace note of no length)
+                    pool = [p for p in ((occ.starting(q0) if gd == 0 else []) + occ.touching(q0)) if occ.free(p, q0, qg)]
                 else:
                     pool = []
-                gp = rng.choice(pool) if pool else next((x for x in [rng.randint(36, 96) for _ in range(8)] if occ.free(x, q0, q0)), None)
+                gp = rng.choice(pool) if pool else next((x for x in [rng.randint(36, 96) for _ in range(8)] if occ.free(x, q0, qg)), None)
                 if gp is not None:
-                    occ.add(gp, q0, q0)
+                    occ.add(gp, q0, qg)
                     st, al, oc = spell(rng, gp)
-                    pd["notes"].append({"id": new_id("g"), "t": pos, "dur": 0, "kind": "grace", "step": st, "alter": al, "oct": oc,
-                                        "voice": v, "staff": 1, "grace_type": rng.choice(["grace", "acciaccatura", "appoggiatura"])})
+                    if style == "zero" and rng.random() < 0.7:
+                        # an ordinary note of zero duration
+                        pd["notes"].append({"id": new_id("z"), "t": pos, "dur": 0, "kind": "note", "step": st, "alter": al, "oct": oc,
+                                            "voice": v, "staff": 1})
+                        continue
+                    g = {"id": new_id("g"), "t": pos, "dur": 0 if style == "expand" else gd, "kind": "grace", "step": st, "alter": al,
+                         "oct": oc, "voice": v, "staff": 1, "grace_type": rng.choice(["grace", "acciaccatura", "appoggiatura"])}
+                    if gsym is not None:
+                        g["symdur"] = {"type": gsym}
+                        g["xdur"] = gd
+                    pd["notes"].append(g)
             for p in chosen:
                 st, al, oc = spell(rng, p)
                 prev = None
@@ -473,7 +552,7 @@ def gen_part(rng, pid, skeleton, occ, empty=False):
             if not chosen:
                 pd["notes"].append({"id": new_id("r"), "t": pos, "dur": total_end - pos, "kind": "rest", "voice": v, "staff": 1})
             pos = total_end
-    if not any(n["kind"] == "note" for n in pd["notes"]):
+    if not any(n["kind"] == "note" and n["dur"] > 0 for n in pd["notes"]):
         # keep at least one sounding note in a non-empty part
         for x in range(36, 97):
             if occ.free(x, qpos(0), qpos(layout[0][1])):
@@ -499,15 +578,16 @@ def gen_score(rng):
     return sd
 
 
-def gen_score1(rng):
+def gen_score1(rng, style="any"):
     nparts = rng.choice([1, 1, 2, 2, 3])
     shared = rng.random() < 0.7
     sk = gen_skeleton(rng)
     occ = Occupied()
     parts = []
     empty_at = rng.randrange(nparts) if nparts > 1 and rng.random() < 0.12 else None
+    style = rng.choice([None] * 7 + ["extent", "expand", "zero"]) if style == "any" else style
     for i in range(nparts):
-        parts.append(gen_part(rng, "P%d" % i, sk if shared else gen_skeleton(rng), occ, empty=(i == empty_at)))
+        parts.append(gen_part(rng, "P%d" % i, sk if shared else gen_skeleton(rng), occ, empty=(i == empty_at), style=style))
     # structure: parts optionally wrapped in groups; a group may contain further groups ("n": nested items)
     struct, i = [], 0
     while i < nparts:
@@ -532,7 +612,10 @@ def gen_score1(rng):
         else:
             struct.append(["p", i])
             i += 1
-    return {"parts": parts, "struct": struct}
+    sd = {"parts": parts, "struct": struct}
+    if style == "expand":
+        sd["expand_grace"] = True
+    return sd
 
 
 def add_warm(rng, sd):
@@ -613,6 +696,12 @@ def cases(rng, tier):
                "cfg": [r2.choice(MODES), r2.choice(ANAC), r2.choice(MINPPQ), r2.choice([1, 30, 64, 90, 127])],
                "src": "object" if r2.random() < 0.75 else "parsed", "path": r2.choice(["str", "pathlib"]),
                "ops": gen_ops(r2)}
+    # the rejection paths of the exporter and their accepted neighbours
+    for _ in range(16 if tier == "quick" else 400):
+        yield gen_reject_case(random.Random(rng.randrange(2 ** 62)))
+    # one score object read, edited (divisions, notes, time signatures) and exported again
+    for _ in range(70 if tier == "quick" else (2000 if tier == "thorough" else 1200)):
+        yield gen_edit_case(random.Random(rng.randrange(2 ** 62)))
     n = 100 if tier == "quick" else (1500 if tier == "thorough" else 1200)
     for i in range(n):
         r2 = random.Random(rng.randrange(2 ** 62))
@@ -643,7 +732,36 @@ def build(sd):
         return pg
 
     partlist = [mk(item) for item in sd.get("struct") or [["p", i] for i in range(len(parts))]]
-    return S.Score(partlist, id="score"), parts
+    if sd.get("expand_grace"):
+        # the public `expand_grace_notes`: every grace note gets the length of its notated value; the score that is
+        # exported is the score as it is afterwards (the lengths are read back from the note objects)
+        import copy
+
+        sd = copy.deepcopy(sd)
+        for p, pd in zip(parts, sd["parts"]):
+            S.expand_grace_notes(p)
+            length = {g.id: int(g.end.t) - int(g.start.t) for g in p.iter_all(S.GraceNote)}
+            for n in pd["notes"]:
+                if n["kind"] == "grace":
+                    n["dur"] = length[n["id"]]
+    return S.Score(partlist, id="score"), parts, sd
+
+
+def domain_ok(sd):
+    """the property's domain, from the description alone: no two sounding notes of equal pitch overlap anywhere in the
+    score (positive durations pairwise disjoint as half-open intervals of musical time, a zero-duration note not
+    strictly inside a positive one) - then they do not overlap within any track / channel of any mode"""
+    by_pitch = defaultdict(list)
+    for pd in sd["parts"]:
+        for (t, dur, pitch, _) in sounding_desc(pd):
+            by_pitch[pitch].append((quarter(pd, t), quarter(pd, t + dur)))
+    for iv in by_pitch.values():
+        pos = sorted(x for x in iv if x[0] < x[1])
+        if any(a[1] > b[0] for a, b in zip(pos, pos[1:])):
+            return False
+        if any(a < z < b for (z, z1) in iv if z == z1 for (a, b) in pos):
+            return False
+    return True
 
 
 # ====================================================================== wire
@@ -727,27 +845,30 @@ def file_tracks(mf):
     return out
 
 
-class Timeout(Exception):
-    pass
+Timeout = CpuTimeout   # a BaseException: `except Exception` in the code under test does not swallow it
 
 
 def with_timeout(sec, f, *a, **kw):
-    """run f under SIGALRM (pool workers and the main process run evaluate in their main thread)"""
-    import signal
+    """run f under a limit of `sec` seconds of CPU time of this process (harness/cpulimit.py: ITIMER_PROF, not the
+    wall clock - a loaded machine is not a timeout; a loader that does not terminate burns CPU and is stopped)"""
+    preload()
+    return run_limited(sec, f, *a, **kw)
 
-    def h(sig, frm):
-        raise Timeout("no result after %d s" % sec)
 
-    try:
-        old = signal.signal(signal.SIGALRM, h)
-    except ValueError:  # not in the main thread
-        return f(*a, **kw)
-    signal.alarm(sec)
-    try:
-        return f(*a, **kw)
-    finally:
-        signal.alarm(0)
-        signal.signal(signal.SIGALRM, old)
+_PRELOADED = []
+
+
+def preload():
+    """every heavy import happens before a limit is armed (a limit firing inside an import leaves half-initialised
+    modules behind)"""
+    if not _PRELOADED:
+        _PRELOADED.append(True)
+        try:
+            import numpy, scipy.interpolate, mido  # noqa
+            import partitura, partitura.score, partitura.performance  # noqa
+            import partitura.io.exportmidi, partitura.io.importmidi, partitura.utils.music  # noqa
+        except ImportError:
+            pass
 
 
 def conflicting_signatures(tracks):
@@ -771,11 +892,16 @@ def call(f, *a, **kw):
 
 # ====================================================================== evaluation
 def evaluate(d):
+    preload()
     k = d["k"]
     if k == "score":
         return eval_score(d)
     if k == "hist":
         return eval_hist(d)
+    if k == "edit":
+        return eval_edit(d)
+    if k == "reject":
+        return eval_reject(d)
     ev = Eval()
     if k == "ppq":
         import partitura.score as S
@@ -906,7 +1032,7 @@ def evaluate(d):
                 sorted((n for n in pnotes if n["track"] == i),
                        key=lambda n: (n["note_on_tick"], n["midi_pitch"], n["note_off_tick"], n["channel"], n["velocity"]))), range(len(tracks))))
         buf.seek(0)
-        sc2, e3 = call(with_timeout, 30, load_score_midi, mido.MidiFile(file=buf), part_voice_assign_mode=d["mode"])
+        sc2, e3 = call(with_timeout, 120, load_score_midi, mido.MidiFile(file=buf), part_voice_assign_mode=d["mode"])
         n_notes = sum(1 for tr in tracks for _, _, m in tr if m.type == "note_on" and m.velocity > 0) if e2 else len(pnotes)
         # the importer's part construction (measures, ties, tuplets: C11) may reject arbitrary material; the
         # pairing and grouping are compared whenever it returns, and its refusal of a file without notes
@@ -995,7 +1121,9 @@ def eval_score(d):
     ev = Eval()
     sd = d["score"]
     _PICKUP.clear()
-    score, parts = build(sd)
+    score, parts, sd = build(sd)
+    if d["score"].get("expand_grace") and not domain_ok(sd):
+        return ev  # the expanded grace notes overlap a note of their pitch: outside the property's domain
     # group identity as the exporter sees it
     tops, gidx = [], []
     for p in score.parts:
@@ -1011,6 +1139,42 @@ def eval_score(d):
     n_sound = sum(len(sounding_desc(pd)) for pd in sd["parts"])
     rows = score_rows(score)
     org_of = {}
+    # ---- the domain of the theorems (`ScoreNoOverlap`, hypothesis of property_C04) holds for what is generated: no two
+    # notes of equal pitch overlap within a (track, channel) of any mode, decided by the model on the real parts
+    if n_sound > 0 and domain_ok(sd):
+        for m in MODES:
+            ev.requests.append("dom %d %d %s" % (m, len(score.parts), ptoks))
+            ev.impl.append("1")
+    # ---- every optional argument omitted: the defaults of the live signatures (Gen/C04Sig.lean) against the real call
+    dbuf = io.BytesIO()
+    _, de = call(save_score_midi, score, dbuf)
+    ev.requests.append("expdef %d %s" % (len(score.parts), ptoks))
+    if de:
+        ev.impl.append("err")
+    else:
+        dbuf.seek(0)
+        dmf = mido.MidiFile(file=dbuf)
+        dtracks = file_tracks(dmf)
+        ev.impl.append("%d|%s|%s" % (
+            dmf.ticks_per_beat,
+            W.f_list(lambda tr: W.f_list(lambda x: "%d:%s" % (x[0], msg_text(x[2])), tr), dtracks),
+            W.f_list(lambda tr: W.f_list(lambda x: "%d:%s" % (x[1], msg_text(x[2])), tr), dtracks)))
+        if not any(m.type == "time_signature" and m.numerator == 0 for tr in dtracks for _, _, m in tr):
+            dbuf.seek(0)
+            dsc, de2 = call(with_timeout, 120, load_score_midi, mido.MidiFile(file=dbuf))
+            if not de2:
+                ev.requests.append("impdef %d %s" % (dmf.ticks_per_beat, W.lst(lambda tr: W.lst(lambda x: "%d %s" % (x[1], msg_token(x[2])), tr), dtracks)))
+                ev.impl.append(import_text(dsc))
+                # the documented defaults: mode 0, velocity 64, "shift", no minimum ppq
+                dperf, de3 = call(load_performance_midi, dmf)
+                dpn = None if de3 else [dict(n, track=pp.track) for pp in dperf.performedparts for n in pp.notes]
+                ev.oracle += ["default call: " + f for f in oracle(sd, order, [0, "shift", 0, 64], dmf, dtracks, dpn, dsc, "defaults")]
+                # the documented default of the importer is mode 0: "one Part per track, with voices assigned by channels"
+                n_tr = sum(1 for tr in dtracks if any(m.type == "note_on" and m.velocity > 0 for _, _, m in tr))
+                if len(dsc.parts) != n_tr or any(n.voice is None for p2 in dsc.parts for n in p2.notes_tied):
+                    ev.oracle.append("default call: import mode: load_score_midi(file) gives %d parts for %d tracks with notes%s; the "
+                                     "documented default is mode 0 (a part per track, voices by channel)"
+                                     % (len(dsc.parts), n_tr, ", notes without voice" if any(n.voice is None for p2 in dsc.parts for n in p2.notes_tied) else ""))
     for ci, cfg in enumerate(d["configs"]):
         mode, anac, minppq, vel = cfg
         tag = "mode=%d %s min=%d vel=%d" % (mode, anac, minppq, vel)
@@ -1079,7 +1243,7 @@ def eval_score(d):
                              "load_score_midi does not terminate on the file" % tag)
             ev.oracle += oracle(sd, order, cfg, mf, tracks, pnotes, None, tag)
             continue
-        sc2, e3 = call(with_timeout, 60, load_score_midi, mido.MidiFile(file=buf), part_voice_assign_mode=mode)
+        sc2, e3 = call(with_timeout, 120, load_score_midi, mido.MidiFile(file=buf), part_voice_assign_mode=mode)
         if e3 and not isinstance(e3, Timeout) and conflicting_signatures(tracks):
             # parts with different metres merged into one track (modes 1, 2, 4): the track states two
             # different time signatures at one tick, which no score has; create_part/add_measures may reject
@@ -1208,7 +1372,9 @@ def eval_hist(d):
     ev = Eval()
     sd = d["score"]
     _PICKUP.clear()
-    score, parts = build(sd)
+    score, parts, sd = build(sd)
+    if d["score"].get("expand_grace") and not domain_ok(sd):
+        return ev  # the expanded grace notes overlap a note of their pitch: outside the property's domain
     order = [[i for i, q in enumerate(parts) if q is p][0] for p in score.parts]
     pds = [sd["parts"][i] for i in order]
     mode, anac, minppq, vel = d["cfg"]
@@ -1267,7 +1433,7 @@ def eval_hist(d):
             k = tuple(op)
             if k not in ref_cache:
                 if op[0] == "I":
-                    ref_cache[k] = call(with_timeout, 60, load_score_midi, path, part_voice_assign_mode=op[1])
+                    ref_cache[k] = call(with_timeout, 120, load_score_midi, path, part_voice_assign_mode=op[1])
                 else:
                     ref_cache[k] = call(load_performance_midi, path)
             return ref_cache[k]
@@ -1277,7 +1443,7 @@ def eval_hist(d):
             if op[0] == "I":
                 if zero_num:
                     continue  # add_measures does not terminate on a 0/x signature (tsc-zero-numerator, judged by the score cases)
-                sc2, e2 = call(with_timeout, 60, load_score_midi, mf, part_voice_assign_mode=op[1])
+                sc2, e2 = call(with_timeout, 120, load_score_midi, mf, part_voice_assign_mode=op[1])
                 rsc, re_ = reference(op)
                 if e2 or re_:
                     tolerated = (bool(e2) and bool(re_) and type(e2) is type(re_) and not isinstance(e2, Timeout)
@@ -1437,6 +1603,342 @@ def import_text(sc):
     tempos = sorted((tp.start.t, tp.microseconds_per_quarter) for tp in first.iter_all(S.Tempo))
     rows.sort(key=lambda r: r[0])
     return "[" + ",".join(r[1] for r in rows) + "]|" + W.f_list(lambda t: W.f_tuple(W.f_int(t[0]), W.f_int(t[1])), tempos)
+
+
+# ====================================================================== when the exporter returns
+def eval_reject(d):
+    """the rejection paths of save_score_midi (theorem export_returns_iff): an unsupported mode, a score without any
+    sounding note; and their neighbours that are accepted (mode 5, one sounding note).  Only model and code are
+    compared: the property does not say what a rejected call does."""
+    import mido
+    from partitura.io.exportmidi import save_score_midi
+
+    ev = Eval()
+    _PICKUP.clear()
+    score, parts, sd = build(d["score"])
+    tops, gidx = [], []
+    for p in score.parts:
+        top = p
+        while top.parent:
+            top = top.parent
+        if not any(top is t for t in tops):
+            tops.append(top)
+        gidx.append([i for i, t in enumerate(tops) if t is top][0])
+    ptoks = " ".join(part_tokens(p, g) for p, g in zip(score.parts, gidx))
+    mode, anac, minppq, vel = d["cfg"]
+    buf = io.BytesIO()
+    _, e = call(save_score_midi, score, buf, part_voice_assign_mode=mode, velocity=vel, anacrusis_behavior=anac, minimum_ppq=minppq)
+    ev.requests.append("exp %d %s %d %d %d %s" % (mode, anac, minppq, vel, len(score.parts), ptoks))
+    if e:
+        ev.impl.append("err")
+    else:
+        buf.seek(0)
+        mf = mido.MidiFile(file=buf)
+        tracks = file_tracks(mf)
+        ev.impl.append("%d|%s|%s" % (
+            mf.ticks_per_beat,
+            W.f_list(lambda tr: W.f_list(lambda x: "%d:%s" % (x[0], msg_text(x[2])), tr), tracks),
+            W.f_list(lambda tr: W.f_list(lambda x: "%d:%s" % (x[1], msg_text(x[2])), tr), tracks)))
+    n_sound = sum(len(sounding_desc(pd)) for pd in sd["parts"])
+    want_err = not (0 <= mode <= 5) or n_sound == 0
+    if bool(e) != want_err and not (e and n_sound):
+        # (informative only when the code ACCEPTS what the characterisation says it rejects)
+        ev.oracle.append("returns: save_score_midi %s for mode %d and %d sounding notes" % ("returned" if not e else "raised", mode, n_sound))
+    ev.info = {"rejected": bool(e)}
+    ev.key = "reject:%s" % hash_desc(d)
+    return ev
+
+
+def gen_reject_case(rng):
+    import copy
+
+    sd = gen_score1(rng, style=None)
+    r = rng.random()
+    cfg = [rng.choice(MODES), rng.choice(ANAC), rng.choice(MINPPQ), 64]
+    if r < 0.4:
+        cfg[0] = rng.choice([6, 7, 9, 100])
+    elif r < 0.8:
+        # no sounding note anywhere: every note becomes a rest (or only one note is left, which is accepted)
+        sd = copy.deepcopy(sd)
+        keep = rng.random() < 0.3
+        for pd in sd["parts"]:
+            for n in pd["notes"]:
+                if n["kind"] in ("note", "grace"):
+                    if keep and n["kind"] == "note" and not n.get("tie") and n["dur"] > 0:
+                        keep = False
+                        continue
+                    n["kind"] = "rest"
+                    n.pop("tie", None)
+                    n.pop("grace_type", None)
+    return {"k": "reject", "score": sd, "cfg": cfg}
+
+
+# ====================================================================== one score object: read, edit, export again
+def desc_apply(sd, op):
+    """the description after an edit, by the documented meaning of the call (independent of the code):
+    ["Q", part, t, q]  Part.set_quarter_duration(t, q): q divisions per quarter from t until the next change; a value
+                       stored at t is replaced; time points do not move, only their relation to musical time
+    ["A", part, note]  Part.add(Note, t, t + dur)      ["X", part, id]  Part.remove(note)
+    ["T", part, t, beats, beat_type]  the TimeSignature at t (if any) is removed and another one is added there"""
+    import copy
+
+    sd = copy.deepcopy(sd)
+    pd = sd["parts"][op[1]]
+    if op[0] == "Q":
+        tbl = dict(qd_table(pd))
+        tbl[op[2]] = op[3]
+        pd["divs"] = tbl.pop(0)
+        pd["qd"] = [[t, q] for t, q in sorted(tbl.items())]
+    elif op[0] == "A":
+        pd["notes"].append(dict(op[2]))
+        pd["notes"].sort(key=lambda n: n["t"])
+    elif op[0] == "X":
+        pd["notes"] = [n for n in pd["notes"] if n["id"] != op[2]]
+    elif op[0] == "T":
+        pd["ts"] = sorted([x for x in pd["ts"] if x[0] != op[2]] + [[op[2], op[3], op[4]]])
+    return sd
+
+
+def all_divs_lcm(sd):
+    L = 1
+    for pd in sd["parts"]:
+        for _, q in qd_table(pd):
+            L = lcm(L, q)
+    return L
+
+
+def edit_domain_ok(sd):
+    """the generated domain after an edit: no equal-pitch overlap anywhere (domain_ok); the bar of the first time
+    signature of every part with a pickup on the tick grid (`pad_bar`, hypothesis of score_roundtrip_pad_partial);
+    parts that start equally early have the same first time signature (see gen_score)"""
+    if not domain_ok(sd):
+        return False
+    # a MIDI time signature holds a numerator of at most 255 (mido refuses more): every measure, as `time_sig_change`
+    # writes it (beats halved until whole or /128), stays below that
+    for pd in sd["parts"]:
+        for (s0, e0, _) in pd.get("measures") or []:
+            ts = ts_in_force(pd, s0)
+            if ts is not None:
+                nb, bt = beat_dur(pd, s0, e0), ts[1]
+                while nb.denominator != 1 and bt < 128:
+                    nb, bt = 2 * nb, 2 * bt
+                if nb > 255:
+                    return False
+    L = all_divs_lcm(sd)
+    first = {}
+    for pd in sd["parts"]:
+        if pickup_of(pd) > 0:
+            b, bt = ts_in_force(pd, 0) or (4, 4)
+            if (4 * b * L) % bt:
+                return False
+            if first.setdefault(pickup_of(pd), (b, bt)) != (b, bt):
+                return False
+    return True
+
+
+def gen_edit(rng, sd, serial):
+    """one edit of the description `sd` that keeps it in the domain, or None"""
+    pi = rng.randrange(len(sd["parts"]))
+    pd = sd["parts"][pi]
+    end_t = max([m[1] for m in pd.get("measures") or []] + [n["t"] + n["dur"] for n in pd["notes"]])
+    bars = sorted(set(m[0] for m in pd.get("measures") or []))
+    r = rng.random()
+    if r < 0.5:
+        rr = rng.random()
+        t = (rng.choice(bars) if rr < 0.45 and bars else 0 if rr < 0.55 else
+             rng.choice([x[0] for x in pd["qd"]]) if rr < 0.7 and pd["qd"] else rng.randrange(0, end_t))
+        cur = [q for (tt, q) in qd_table(pd) if tt <= t][-1]
+        cand = [cur * 2, cur * 3, cur * 2, rng.choice(DIVS_ODD + DIVS_ANY)] + ([cur // 2] if cur % 2 == 0 else []) + ([cur] if rng.random() < 0.1 else [])
+        return ["Q", pi, t, rng.choice(cand)]
+    if r < 0.7:
+        notes = [n for n in pd["notes"] if n["kind"] in ("note", "grace")]
+        if not notes:
+            return None
+        graces = set(n["t"] for n in pd["notes"] if n["kind"] == "grace")
+        t = next((x for x in [rng.randrange(0, end_t) for _ in range(8)] if x not in graces), None)
+        if t is None:
+            return None
+        dur = rng.randint(1, max(1, min(end_t - t, 2 * pd["divs"])))
+        st, al, oc = spell(rng, rng.randint(36, 96))
+        return ["A", pi, {"id": "e%s_%d" % (pd["id"], serial), "t": t, "dur": dur, "kind": "note", "step": st, "alter": al, "oct": oc,
+                          "voice": rng.choice([n.get("voice") for n in notes]), "staff": 1}]
+    if r < 0.82:
+        tied = set(n["tie"] for n in pd["notes"] if n.get("tie"))
+        cand = [n for n in pd["notes"] if n["kind"] in ("note", "grace") and not n.get("tie") and n["id"] not in tied]
+        if len([n for n in pd["notes"] if n["kind"] == "note" and n["dur"] > 0]) < 2 or not cand:
+            return None
+        n = rng.choice(cand)
+        if n["kind"] == "note" and n["dur"] > 0 and len([m for m in pd["notes"] if m["kind"] == "note" and m["dur"] > 0]) < 2:
+            return None
+        return ["X", pi, n["id"]]
+    have = [x[0] for x in pd["ts"]]
+    t = rng.choice(have) if rng.random() < 0.6 or not bars else rng.choice(bars)
+    b, bt = rng.choice(TS_POOL)
+    return ["T", pi, t, b, bt]
+
+
+def gen_edit_case(rng):
+    """EDIT-AFTER-READ history on one score object: a read (an export, the time maps, note arrays, every view), then
+    1-3 edits each optionally followed by a read; the final export is judged"""
+    for _ in range(20):
+        sd = gen_score1(rng, style=rng.choice([None, None, None, "extent", "zero"]))
+        if edit_domain_ok(sd):
+            break
+    add_warm(rng, sd)
+    cfg = lambda: [rng.choice(MODES), rng.choice(ANAC), rng.choice(MINPPQ), rng.choice([1, 30, 64, 90, 127])]
+    read = lambda: ["R", rng.choice(["export", "export", "maps", "arrays", "views"]), cfg()]
+    ops, cur, serial = [read()], sd, 0
+    for _e in range(rng.choice([1, 1, 1, 2, 2, 3])):
+        for _try in range(10):
+            serial += 1
+            op = gen_edit(rng, cur, serial)
+            if op is None:
+                continue
+            nxt = desc_apply(cur, op)
+            if edit_domain_ok(nxt):
+                ops.append(op)
+                cur = nxt
+                if rng.random() < 0.4:
+                    ops.append(read())
+                break
+    return {"k": "edit", "score": sd, "ops": ops, "cfg": cfg()}
+
+
+def canon_file(mf):
+    return [int(mf.ticks_per_beat), [sorted((t, msg_text(m)) for (t, _, m) in tr) for tr in file_tracks(mf)]]
+
+
+def eval_edit(d):
+    import mido
+    import partitura.score as S
+    from partitura.io.exportmidi import save_score_midi
+    from partitura.io.importmidi import load_score_midi, load_performance_midi
+
+    ev = Eval()
+    _PICKUP.clear()
+    score, parts, sd = build(d["score"])
+    order = [[i for i, q in enumerate(parts) if q is p][0] for p in score.parts]   # score.parts -> index into sd["parts"]
+    pos_of = {pi: j for j, pi in enumerate(order)}
+    tops, gidx = [], []
+    for p in score.parts:
+        top = p
+        while top.parent:
+            top = top.parent
+        if not any(top is t for t in tops):
+            tops.append(top)
+        gidx.append([i for i, t in enumerate(tops) if t is top][0])
+    ptoks0 = " ".join(part_tokens(p, g) for p, g in zip(score.parts, gidx))
+    cur, etoks = sd, []
+    for op in d["ops"]:
+        if op[0] == "R":
+            m, a, mp, v = op[2]
+            if op[1] == "export":
+                call(save_score_midi, score, None, part_voice_assign_mode=m, velocity=v, anacrusis_behavior=a, minimum_ppq=mp)
+            elif op[1] == "maps":
+                for p in parts:
+                    call(lambda: [float(p.quarter_map(0)), float(p.inv_quarter_map(0.0)), float(p.beat_map(0)), p.time_signature_map(0)])
+            elif op[1] == "arrays":
+                call(lambda: score.note_array())
+                for p in parts:
+                    call(lambda: p.note_array())
+            else:
+                for p in parts:
+                    G.warm_readers(p)
+            continue
+        part = parts[op[1]]
+        if op[0] == "Q":
+            part.set_quarter_duration(op[2], op[3])
+            etoks.append("Q %d %d %d" % (pos_of[op[1]], op[2], op[3]))
+        elif op[0] == "A":
+            n = op[2]
+            part.add(S.Note(step=n["step"], octave=n["oct"], alter=n.get("alter"), id=n["id"], voice=n.get("voice"), staff=n.get("staff")),
+                     n["t"], n["t"] + n["dur"])
+            etoks.append("A %d %d %d %d %s" % (pos_of[op[1]], n["t"], n["dur"], midi_of(n), W.opt(W.i, n.get("voice"))))
+        elif op[0] == "X":
+            rows = list(part.notes_tied)
+            k = next((i for i, o in enumerate(rows) if o.id == op[2]), None)
+            if k is None:
+                return Eval()   # (a shrunk history) the note is not there
+            part.remove(rows[k])
+            etoks.append("R %d %d" % (pos_of[op[1]], k))
+        elif op[0] == "T":
+            for old in [x for x in part.iter_all(S.TimeSignature) if x.start.t == op[2]]:
+                part.remove(old)
+            part.add(S.TimeSignature(op[3], op[4]), op[2])
+            etoks.append("T %d %d %d %d" % (pos_of[op[1]], op[2], op[3], op[4]))
+        cur = desc_apply(cur, op)
+    if not edit_domain_ok(cur):
+        return Eval()   # (a shrunk history) the edited score is outside the generated domain
+    mode, anac, minppq, vel = cfg = d["cfg"]
+    hist = " ".join("%s%s" % (o[0], ":" + o[1] if o[0] == "R" else "") for o in d["ops"])
+    tag = "mode=%d %s min=%d vel=%d after %s" % (mode, anac, minppq, vel, hist)
+    kw = dict(part_voice_assign_mode=mode, velocity=vel, anacrusis_behavior=anac, minimum_ppq=minppq)
+    n_sound = sum(len(sounding_desc(pd)) for pd in cur["parts"])
+    ev.key = None if n_sound == 0 else "edit:%s" % hash_desc(d)
+    ev.info = {"parts": len(cur["parts"]), "notes": n_sound}
+    args = "%d %s %d %d %d" % (mode, anac, minppq, vel, len(score.parts))
+    req = "edit %s %s %s" % (args, ptoks0, W.lst(lambda x: x, etoks))
+    buf = io.BytesIO()
+    _, e = call(save_score_midi, score, buf, **kw)
+    if e:
+        ev.requests.append(req)
+        ev.impl.append("err")
+        if n_sound > 0:
+            ev.oracle.append("export raised: [%s] save_score_midi of the edited score raised %s: %s" % (tag, type(e).__name__, str(e)[:120]))
+        return ev
+    buf.seek(0)
+    mf = mido.MidiFile(file=buf)
+    tracks = file_tracks(mf)
+    exp_text = "%d|%s|%s" % (
+        mf.ticks_per_beat,
+        W.f_list(lambda tr: W.f_list(lambda x: "%d:%s" % (x[0], msg_text(x[2])), tr), tracks),
+        W.f_list(lambda tr: W.f_list(lambda x: "%d:%s" % (x[1], msg_text(x[2])), tr), tracks))
+    perf, e2 = call(load_performance_midi, mf)
+    pnotes = None
+    if e2:
+        ev.oracle.append("perf raised: [%s] load_performance_midi raised %s" % (tag, type(e2).__name__))
+    else:
+        pnotes = [dict(n, track=pp.track) for pp in perf.performedparts for n in pp.notes]
+        ev.requests.append(req)
+        ev.impl.append(exp_text + "#" + spec_text(cur, order, score_rows(score), anac, tracks, pnotes) + "|-")
+    # ---- the twin: the edited description built from scratch and exported with the same configuration
+    _PICKUP.clear()
+    tscore, tparts, _ = build(cur)
+    tmf, te = call(save_score_midi, tscore, None, **kw)
+    if te:
+        ev.oracle.append("edit(twin): [%s] the edited object is exported, a twin built from scratch raises %s" % (tag, type(te).__name__))
+    elif canon_file(tmf) != canon_file(mf):
+        a, b = canon_file(mf), canon_file(tmf)
+        if a[0] != b[0]:
+            df = "ticks per quarter %d, twin %d" % (a[0], b[0])
+        elif len(a[1]) != len(b[1]):
+            df = "%d tracks, twin %d" % (len(a[1]), len(b[1]))
+        else:
+            ti = next(i for i in range(len(a[1])) if a[1][i] != b[1][i])
+            only_a = [x for x in a[1][ti] if x not in b[1][ti]][:3]
+            only_b = [x for x in b[1][ti] if x not in a[1][ti]][:3]
+            df = "track %d: only in the edited object's file %r, only in the twin's %r" % (ti, only_a, only_b)
+        ev.oracle.append("edit(twin): [%s] the export of the edited object differs from the export of a twin built from scratch with "
+                         "the same content: %s" % (tag, df))
+    # ---- the property itself on the edited score
+    zero_num = any(m.type == "time_signature" and m.numerator == 0 for tr in tracks for _, _, m in tr)
+    sc2 = None
+    if zero_num:
+        ev.oracle.append("tsc-zero-numerator: [%s] a measure shorter than one beat is written as time signature 0/x" % tag)
+    else:
+        buf.seek(0)
+        sc2, e3 = call(with_timeout, 120, load_score_midi, mido.MidiFile(file=buf), part_voice_assign_mode=mode)
+        if e3 and not (not isinstance(e3, Timeout) and conflicting_signatures(tracks)):
+            ev.oracle.append("import raised: [%s] load_score_midi raised %s: %s" % (tag, type(e3).__name__, str(e3)[:120]))
+    ev.oracle += oracle(cur, order, cfg, mf, tracks, pnotes, sc2, tag)
+    seen, res = set(), []
+    for f in ev.oracle:
+        c = f.split(":")[0]
+        if c not in seen:
+            seen.add(c)
+            res.append(f)
+    ev.oracle = res
+    return ev
 
 
 # ====================================================================== the property oracle (independent of the model)
@@ -1713,6 +2215,18 @@ def shrink(d):
         for s2 in shrink_score(d["score"]):
             yield dict(d, score=s2)
         return
+    if d.get("k") == "edit":
+        ops = d["ops"]
+        # fewer steps (a read or an edit), then a plain build
+        for i in range(len(ops)):
+            if sum(1 for o in ops if o[0] != "R") > 1 or ops[i][0] == "R":
+                yield dict(d, ops=ops[:i] + ops[i + 1:])
+        if any("warm" in pd for pd in d["score"]["parts"]):
+            s2 = copy.deepcopy(d["score"])
+            for pd in s2["parts"]:
+                pd.pop("warm", None)
+            yield dict(d, score=s2)
+        return
     if d.get("k") != "score":
         return
     if len(d["configs"]) > 1:
@@ -1763,6 +2277,7 @@ def shrink_score(sd):
 def distribution(descs, results):
     sc = [d for d in descs if d.get("k") == "score"]
     hs = [d for d in descs if d.get("k") == "hist"]
+    eds = [d for d in descs if d.get("k") == "edit"]
     divs = Counter()
     for d in sc:
         for pd in d["score"]["parts"]:
@@ -1773,6 +2288,14 @@ def distribution(descs, results):
         "scores": len(sc),
         "configs": sum(len(d["configs"]) for d in sc),
         "built_warm": sum(1 for d in sc + hs if any(pd.get("warm") for pd in d["score"]["parts"])),
+        "export_rejection_cases": dict(Counter("rejected" if (r.get("info") or {}).get("rejected") else "accepted"
+                                               for r in results if isinstance(r, dict) and "rejected" in (r.get("info") or {}))),
+        "edit_histories": len(eds),
+        "edit_steps": dict(sorted(Counter(o[0] + (":" + o[1] if o[0] == "R" else "") for d in eds for o in d["ops"]).items())),
+        "edit_histories_ending_with_set_quarter_duration": sum(1 for d in eds if [o for o in d["ops"] if o[0] != "R"][-1:] and
+                                                                [o for o in d["ops"] if o[0] != "R"][-1][0] == "Q"),
+        "edit_histories_set_quarter_duration_replacing_an_entry": sum(1 for d in eds if any(
+            o[0] == "Q" and o[2] in [0] + [x[0] for x in d["score"]["parts"][o[1]]["qd"]] for o in d["ops"])),
         "histories": len(hs),
         "history_uses": dict(sorted(Counter(o[0] for d in hs for o in d["ops"]).items())),
         "history_import_in_other_mode": sum(1 for d in hs if any(o[0] == "I" and o[1] != d["cfg"][0] for o in d["ops"])),
@@ -1791,6 +2314,10 @@ def distribution(descs, results):
             n["kind"] == "grace" and any(m["kind"] == "note" and m["t"] == n["t"] and m.get("voice") == n.get("voice") and midi_of(m) == midi_of(n)
                                          for m in pd["notes"]) for pd in d["score"]["parts"] for n in pd["notes"])),
         "with_grace": sum(1 for d in sc if any(n["kind"] == "grace" for pd in d["score"]["parts"] for n in pd["notes"])),
+        "with_grace_that_lasts": sum(1 for d in sc + hs if any(n["kind"] == "grace" and n["dur"] > 0 for pd in d["score"]["parts"] for n in pd["notes"])),
+        "with_grace_expanded_by_expand_grace_notes": sum(1 for d in sc + hs if d["score"].get("expand_grace") and any(
+            n["kind"] == "grace" for pd in d["score"]["parts"] for n in pd["notes"])),
+        "with_zero_duration_ordinary_note": sum(1 for d in sc + hs if any(n["kind"] == "note" and n["dur"] == 0 for pd in d["score"]["parts"] for n in pd["notes"])),
         "raw_files_perf_reader_raised": sum(1 for r in results if isinstance(r, dict) and (r.get("info") or {}).get("raw_perf_raised")),
         "raw_files_importer_raised": sum(1 for r in results if isinstance(r, dict) and (r.get("info") or {}).get("raw_import_raised")),
         "with_ties": sum(1 for d in sc if any(n.get("tie") for pd in d["score"]["parts"] for n in pd["notes"])),
